@@ -369,8 +369,14 @@ func parent(m fw.Monitor) int {
 		"wall_s": wall, "violations": len(classes),
 	}
 	eb, _ := json.MarshalIndent(ev, "", " ")
-	os.MkdirAll(filepath.Join(*flagVerif, "evidence"), 0755)
-	if err := os.WriteFile(filepath.Join(*flagVerif, "evidence", id+".json"), eb, 0644); err != nil {
+	// evidence describes runs against /repo itself; a run against a scratch
+	// copy (self-test of a mutant) writes it next to its other scratch files.
+	evDir := filepath.Join(*flagVerif, "evidence")
+	if d := os.Getenv("VH_EVIDENCE_DIR"); d != "" {
+		evDir = d
+	}
+	os.MkdirAll(evDir, 0755)
+	if err := os.WriteFile(filepath.Join(evDir, id+".json"), eb, 0644); err != nil {
 		fmt.Fprintf(os.Stderr, "cannot write evidence: %v\n", err)
 		return 3
 	}
